@@ -504,13 +504,17 @@ def write_replay(pid, kind, payload):
 
 
 def write_evidence(pid, tier, seed, coverage, wall, violations, assumptions):
-    os.makedirs(os.path.join(ROOT, "evidence"), exist_ok=True)
+    evdir = os.path.join(ROOT, "evidence")
+    if os.path.realpath(REPO) != "/repo":
+        # a run against a scratch copy of the repository (mutation self-tests): never the committed evidence
+        evdir = os.path.join(WORK, "evidence-scratch")
+    os.makedirs(evdir, exist_ok=True)
     ev = {
         "property_id": pid, "tier": tier, "seed": int(seed), "level": "proof",
         "coverage": coverage, "assumptions": assumptions, "wall_s": round(wall, 2),
         "violations": int(violations),
     }
-    p = os.path.join(ROOT, "evidence", pid + ".json")
+    p = os.path.join(evdir, pid + ".json")
     tmp = p + ".tmp"
     with open(tmp, "w") as f:
         json.dump(ev, f, indent=1)
